@@ -44,7 +44,7 @@ def labelStr : Label → String
 /-- the yield at which each goroutine of the real code is parked in this state (what the scheduler observes) -/
 def pcs (cfg : Cfg) (s : St) : String :=
   let m := match s.m with
-    | .read => "M=read" | .spawnC => "M=spawnC" | .spawning [] => "M=wait" | .spawning _ => "M=spawning"
+    | .read => "M=read" | .spawnC => "M=spawnC" | .spawning [] => "M=wait" | .spawning _ => "M=spawn"
     | .waiting => "M=inWait" | .returned => "M=returned"
   let c := match s.c with
     | .notStarted => "C=none" | .sel => "C=select" | .got v _ => s!"C=recv:{v}" | .done => "C=ctxDone" | .fin => "C=exit" | .gone => "C=gone"
@@ -87,13 +87,21 @@ def fanoutReplay : Handler := fun args =>
     ("enabled", Json.arr (es.map fun e => Json.arr (e.map Json.str).toArray).toArray),
     ("final", finalJson cfg s)]
 
+/-- the services are interchangeable up to `fn`, and the harness binds the k-th spawned real service to the k-th
+    spawned model service: it suffices to enumerate the runs that spawn in list order -/
+def canonEnabled (cfg : Cfg) (s : St) : List Label :=
+  (enabled cfg s).filter fun l =>
+    match l, s.m with
+    | .mSpawn v, .spawning (u :: _) => v == u
+    | _, _ => true
+
 /-- all maximal label sequences of the model from `s` (depth-first), at most `limit` of them; `fuel` bounds the depth
     (the termination measure `mu` is a sufficient fuel) -/
 def enumRuns (cfg : Cfg) : Nat → St → List String → (Nat × List (List String)) → (Nat × List (List String))
   | 0, _, pre, (lim, acc) => (lim - 1, pre.reverse :: acc)
   | fuel + 1, s, pre, (lim, acc) =>
     if lim = 0 then (lim, acc) else
-    match enabled cfg s with
+    match canonEnabled cfg s with
     | [] => (lim - 1, pre.reverse :: acc)
     | ls => ls.foldl (fun st l =>
         match step? cfg s l with
